@@ -62,7 +62,7 @@ def build_chunk(args):
     src = os.path.join(d, stem + '.prophy')
     with open(src, 'w') as f:
         f.write(text)
-    opts = ['--cpp_full_out', d] + (['--cpp_out', d] if raw else [])
+    opts = ['--cpp_out', d] if raw else ['--cpp_full_out', d]
     rc, out, err = C.sh([C.PY, '-m', 'prophyc'] + opts + [src], cwd=C.REPO, env={'PYTHONPATH': C.REPO}, timeout=300)
     if rc != 0:
         return dict(idx=idx, error='prophyc failed: ' + (err or out)[-600:], names=names, dir=d, stem=stem, text=text)
@@ -494,6 +494,8 @@ def to_obligations(prop, results, chunks, check, engine='E2-llsym', e_of=lambda 
                 o.verdict = VIOLATED
                 o.replayed = True
                 o.signature = dict(check=check, cls=viol['cls'].replace('decode-', '').replace('encode-', ''), site=viol.get('site'))
+                if viol.get('fingerprint'):
+                    o.signature['fingerprint'] = viol['fingerprint']
                 o.detail = '%s | %s' % (viol['kind'][:160], txt[:240])
                 o.witness = dict(shape=shape, endianness=e_of(r), input_hex=viol.get('input_hex'))
                 nrep += 1
